@@ -7,12 +7,17 @@
 //	   families / holder sets (newcomers, leavers), with and without the trusted anchor; after every
 //	   step the property predicate is evaluated on the implementation (public key unchanged, shares
 //	   verify, every subset reconstructs the original secret iff qualified, mixed-epoch share sets
-//	   do not reconstruct it) and the model (extracted history machine fed with the tapes) predicts
-//	   the new column: shares are compared as scalars, verification vectors through the exponent.
+//	   do not reconstruct it nor sign; a Lindell22 Schnorr signature per history and a DKLs23 ECDSA
+//	   signature per run with the post-epoch shards verify under the ORIGINAL key) and the model
+//	   (extracted history machine fed with the tapes) predicts the new column: shares are compared
+//	   as scalars, verification vectors through the exponent.
 //	Z  HJKY alone under every family (zero column, zero shares, identity first entry), and with one
 //	   dealer dealing a non-zero value (every other party must blame it).
 //	V  redistribution with one deviating previous holder (consistent dealing of a wrong value,
-//	   wrong previous vector): no party may end with a shard for another key.
+//	   wrong previous vector): no party may end with a shard for another key; the model's Round3
+//	   evaluated on the same deviation gives every victim's verdict (refuse / blame j), which the
+//	   implementation must not contradict by accepting or by blaming somebody else.
+//	R  an unqualified driving set is refused.
 package main
 
 import (
@@ -1406,7 +1411,7 @@ func main() {
 	debug.SetGCPercent(200) // the protocol code allocates heavily; the harness is short-lived
 	a := vh.ParseArgs()
 	res := vh.NewResult(prop, a.Seed, a.Tier)
-	res.Rule = "histories: random policy of a random family (threshold, unanimity, CNF, hierarchical, gate tree with repeated leaves) on 2..maxholders ids (ordinal or sparse/large), dealt by the trusted dealer; then 1..maxlen steps drawn from {refresh 30%, recover a lost share 25%, redistribute to a new family/holder set with leavers and newcomers 45%}, driving quorum = all holders / a minimal / any qualified set, trusted anchor 50%; non-trivial = at least one step performed. hjky: every family, honest and with one dealer dealing a non-zero value. deviation: one previous holder re-deals a wrong value consistently and/or broadcasts a wrong previous vector. refused: unqualified driving set."
+	res.Rule = "histories: random policy of a random family (threshold, unanimity, CNF, hierarchical, gate tree with repeated leaves) on 2..maxholders ids (ordinal or sparse/large), dealt by the trusted dealer; then 1..maxlen steps drawn from {refresh 30%, recover a lost share 25%, redistribute to a new family/holder set with leavers and newcomers 45%}, driving quorum = all holders / a minimal / any qualified set, trusted anchor 50%; non-trivial = at least one step performed. after each step one observation (reconstruct over a random qualified set through the library's coefficients) and up to 3 mixed-epoch sets (a minimal qualified set split between the previous and the new epoch, same MSP); signing with post-epoch shards on the last step. hjky: every family, honest and with one dealer dealing a non-zero value. deviation: one previous holder re-deals a wrong value consistently and/or broadcasts a wrong previous vector. refused: unqualified driving set."
 	var only map[string]string
 	if a.Replay != "" {
 		b, err := os.ReadFile(a.Replay)
